@@ -1053,6 +1053,8 @@ class Frame:
   def contains(self, container, item):
     if hasattr(container, "_pyvc_contains"):
       return container._pyvc_contains(item)
+    if isinstance(container, dict) and (isinstance(item, sym.Sym) or any(isinstance(k, sym.Sym) for k in container)):
+      return self._dict_find(container, item) is not _UNBOUND
     if isinstance(item, sym.Sym) and isinstance(container, (list, tuple)):
       return sym.sor(*[item == x for x in container])
     return item in container
@@ -1088,8 +1090,13 @@ class Frame:
     if isinstance(obj, (list, tuple, str)):
       from . import seq
       return seq.list_getitem(obj, idx, self.qual)
-    if isinstance(obj, dict) and isinstance(idx, sym.Sym):
-      raise Unsupported("symbolic dict key on concrete dict")
+    if isinstance(obj, dict) and (isinstance(idx, sym.Sym) or any(isinstance(k, sym.Sym) for k in obj)):
+      k = self._dict_find(obj, idx)
+      if k is _UNBOUND:
+        c = _ctx.CUR
+        c.fail(f"dict-key@{self.qual}", kind="definedness", detail="KeyError")
+        raise PathEnd()
+      return dict.__getitem__(obj, k)
     try:
       return obj[idx]
     except (IndexError, KeyError) as e:
@@ -1099,7 +1106,30 @@ class Frame:
         raise PathEnd() from e
       raise
 
+  def _dict_find(self, obj, idx):
+    """Semantic key lookup in a concrete dict with symbolic keys (forks on equality)."""
+    for k in obj:
+      if k is idx:
+        return k
+    for k in obj:
+      if isinstance(k, sym.Sym) or isinstance(idx, sym.Sym):
+        try:
+          eq = (k == idx)
+        except Exception:  # pylint: disable=broad-except
+          continue
+        if eq is NotImplemented or eq is False:
+          continue
+        if truthy(eq):
+          return k
+      elif k == idx:
+        return k
+    return _UNBOUND
+
   def setitem(self, obj, idx, v):
+    if isinstance(obj, dict) and (isinstance(idx, sym.Sym) or any(isinstance(k, sym.Sym) for k in obj)):
+      k = self._dict_find(obj, idx)
+      dict.__setitem__(obj, idx if k is _UNBOUND else k, v)
+      return
     if isinstance(obj, list) and isinstance(idx, sym.Sym):
       ci = sym.concrete_int(idx)
       if ci is None:
